@@ -65,7 +65,7 @@ def battery():
             out["wfc%d-%d-%d" % (y, m, dd)] = d.get_week_date_from_calendar_date(y, m, dd)
         for w in (1, 30, 51):
             out["cfw%d-%d" % (y, w)] = d.get_calendar_date_from_week_date(y, w, 3)
-    for s in ("2004-02-28T12:00:00Z", "2019-12-30T00:00:00Z", "+0020000228T23:00:00+05:30",
+    for s in ("2004-02-28T12:00:00Z", "2019-12-30T00:00:00Z", "+0020000228T230000+0530",
               "2001-060T00:00:00Z", "2020W527T00Z", "1896-02-28T00Z"):
         p = P.parse(s)
         for dur in ("P1D", "P2D", "-P1D", "P1M", "P1Y", "P4Y", "PT36H", "P1W", "-P59D", "P400D"):
